@@ -216,6 +216,13 @@ class Verdict:
         return 0
 
 
+# obligations of the proof's own scaffolding (loop invariants, cut lemmas, measures, comprehension side conditions): a refuted
+# one says that this proof no longer goes through, not that the function breaks its contract - undecided unless the bounded
+# search of the same function finds a failing input.  A refuted contract-level obligation (postcondition, no-raise, callee
+# precondition, frame, yielded item) that was discharged on the ledger tree is reported even without an input.
+AUX_KINDS = ('cut', 'inv-init', 'inv-step', 'decreases', 'subset')
+
+
 def run_e1(prop, pool, verdict, tier, seed):
     """Proof part: all contracted functions tagged with the property."""
     import contracts  # noqa
@@ -294,7 +301,8 @@ def run_e1(prop, pool, verdict, tier, seed):
                                             'solver': None if o is None else {'verdict': o['verdict'], 'why': o.get('why')},
                                             'model': model})
             verdict.violation(rp)
-        elif o is not None and o['verdict'] == 'sat' and ledger.get(q, {}).get(o['name']) == 'proved':
+        elif o is not None and o['verdict'] == 'sat' and ledger.get(q, {}).get(o['name']) == 'proved' \
+                and o.get('kind') not in AUX_KINDS:
             rp = write_replay(prop, oname, {'kind': 'obligation-only', 'property': prop, 'obligation': oname, 'qual': q,
                                             'solver': {'verdict': 'sat', 'model': model},
                                             'note': 'discharged on the ledger tree, refuted now; no failing input found within the bounded search'})
